@@ -5,8 +5,8 @@ import json, os, sys
 ENV = "GOTOOLCHAIN=local GOPROXY=off GOSUMDB=off GOFLAGS=-mod=mod"
 CLAIMED = {
  "C02": ("3.2 C02", "World B discrete-event simulation: TOTP tokens whose clocks are skewed, drift and are jumped onto step boundaries (+-2 s, +-1 ns) by the fault injector; every reading of GenerateTOTP (in several zones, with/without monotonic reading, different nanoseconds) is compared with GenerateHOTP at the step the simulator computed from the integer seconds it put on the clock; default resolution cross-checked between generation, validation and URL; a quarter of the workers make the same calls in World A (baton scheduler, simulated sync.Pool) while other callers are inside the library: the answer must equal the answer to the same call made alone"),
- "C03": ("3.2 C03", "World B discrete-event simulation: HOTP tokens and a verifier over a lossy/duplicating/delaying/corrupting transport with lost submissions, token crash-restart and replays; every ValidateHOTP verdict is compared with membership of the delivered string in the window set built with the library's own generator for the counters the simulator knows to be inside the window; a quarter of the workers make the same calls in World A (baton scheduler, simulated sync.Pool) while other callers are inside the library: the answer must equal the answer to the same call made alone"),
- "C04": ("3.2 C04", "World B discrete-event simulation: TOTP tokens and verifier with per-node clocks (offset, drift, jumps), network delay and aimed clock faults; every ValidateTOTP verdict is compared with membership in the step-window set; refusal of skew>10 and bounded work are judged with the statement work meter; a quarter of the workers make the same calls in World A (baton scheduler, simulated sync.Pool) while other callers are inside the library: the answer must equal the answer to the same call made alone"),
+ "C03": ("3.2 C03", "World B discrete-event simulation: HOTP tokens and a verifier over a lossy/duplicating/delaying/corrupting transport with lost submissions, token crash-restart, verifier restart without its last counter update, window reconfiguration mid-history with immediate re-submission, and replays; every ValidateHOTP verdict is compared with membership of the delivered string in the window set built with the library's own generator for the counters the simulator knows to be inside the window; a quarter of the workers make the same calls in World A (baton scheduler, simulated sync.Pool) while other callers are inside the library: the answer must equal the answer to the same call made alone"),
+ "C04": ("3.2 C04", "World B discrete-event simulation: TOTP tokens and verifier with per-node clocks (offset, drift, jumps), network delay, aimed clock faults and window reconfiguration mid-history with immediate re-submission; every ValidateTOTP verdict is compared with membership in the step-window set; refusal of skew>10 and bounded work are judged with the statement work meter; a quarter of the workers make the same calls in World A (baton scheduler, simulated sync.Pool) while other callers are inside the library: the answer must equal the answer to the same call made alone"),
  "C06": ("3.2 C06", "World B discrete-event simulation of OCRA challenge/response sessions with lost, duplicated, reordered and corrupted challenges and answers, diverging counters/clocks/PIN/session/suite and inadmissible verifier input; every ValidateOCRA verdict is compared with GenerateOCRA called alone on the verifier's view; a quarter of the workers make the same calls in World A (baton scheduler, simulated sync.Pool) while other callers are inside the library: the answer must equal the answer to the same call made alone"),
  "C13": ("3.2 C13", "invariant riding on every verifier call and every failing operation of the World B simulation (all failure causes injected as faults): verdict is (true,nil) or (false,err); no error text contains the secret or an acceptable code; a quarter of the workers judge the same (ok, err) pairs in World A (baton scheduler, callers repeating each other's exact calls) for validations made while other callers are inside the library"),
  "C08": ("3.1 C08", "World A: crypto/rand.Reader replaced by a plan-determined, chunking, logging stream; 1-16 tasks call RandomSecret under the seeded baton scheduler; per-call and per-run conservation oracle over the bytes the reader handed out"),
